@@ -64,8 +64,15 @@ def gen_messages(ctx):
         msgs += [[r.randrange(256), r.randrange(256)] for _ in range(1500)]
         nrand = 600
     r = ctx.rng
+    # long messages: every length around the one-byte / two-byte length boundaries, and a few very long ones
+    for n in list(range(250, 262)) + [511, 512, 513, 1023, 1024, 1025, 2048] + ([4096] if ctx.tier == "thorough" else []):
+        msgs.append([r.randrange(256) for _ in range(n)])
+        if n <= 1025:
+            m = [0] * n
+            m[-1] = 1 << r.randrange(8)           # a single bit in the last byte of an all-zero message
+            msgs.append(m)
     for _ in range(nrand):
-        n = r.choice([3, 4, 5, 8, 16, 17, 31, 64, 100])
+        n = r.choice([3, 4, 5, 8, 16, 17, 31, 64, 100, 200, 255, 256, 257, 300])
         kind = r.random()
         if kind < 0.15:
             m = [0] * n
@@ -83,6 +90,9 @@ def oracle_search(mod, ctx, msgs):
     out = []
     table = getattr(mod, "_crc7_table", None)
     cand = [[i] for i in range(256)] + msgs
+    rl = ctx.rng
+    # very long messages (only against the bit-serial reference: a 64k literal is too much for one Coq term)
+    cand += [[rl.randrange(256) for _ in range(n)] for n in (4096, 65535, 65536, 65537)]
     if ctx.tier == "thorough" or True:
         cand = cand + [[i, j] for i in range(256) for j in range(0, 256, 1)]
     for m in cand:
